@@ -38,15 +38,48 @@ func runC09(c *Ctx) {
 				}
 			}
 		}
-		if enc != nil {
-			cw = enc.Parent()
-			R.Analysed(fname(cw))
+		appFn := cw // the function that appends the length and the payload
+		var passThrough *ssa.Call
+		if enc != nil && enc.Parent() != cw {
+			// a helper that only encodes and hands Encode's results back unchanged leaves the appends in Column.Write;
+			// a helper that holds the whole step takes Column.Write's place
+			h := enc.Parent()
+			only := len(returns(h)) > 0
+			for _, r := range returns(h) {
+				if len(r.Results) != 2 || r.Results[0] != resultOf(enc, 0) || r.Results[1] != resultOf(enc, 1) {
+					only = false
+				}
+			}
+			if only {
+				for _, ci := range callsIn(cw, calleeIs(h)) {
+					passThrough, _ = ci.(*ssa.Call)
+				}
+			}
+			if passThrough == nil {
+				appFn = h
+			}
+			cw = h
+			R.Analysed(fname(h))
 		}
 		if enc == nil {
 			R.Fail("C09.R1", "Column.Write:encode-call", c.atFn(cw), "values are encoded through the type map's Encode", "no pgtype.Map.Encode call in Column.Write")
 		} else {
 			buf := resultOf(enc, 0)
 			eerr := resultOf(enc, 1)
+			if passThrough != nil {
+				buf, eerr = resultOf(passThrough, 0), resultOf(passThrough, 1)
+			}
+			// an argument of Encode in the terms of Column.Write (through the encoding helper's parameters)
+			inWrite := func(v ssa.Value) ssa.Value {
+				if prm, ok := core.Strip(v).(*ssa.Parameter); ok && passThrough != nil {
+					for i, hp := range enc.Parent().Params {
+						if hp == prm && i < len(passThrough.Call.Args) {
+							return passThrough.Call.Args[i]
+						}
+					}
+				}
+				return v
+			}
 			// the buffer passed in is fresh and non-nil
 			in := enc.Call.Args[len(enc.Call.Args)-1]
 			fresh := false
@@ -60,7 +93,7 @@ func runC09(c *Ctx) {
 			}
 			R.Check(fresh, "C09.R1", "Column.Write:fresh-non-nil-buffer", c.at(enc), "Encode appends to a fresh, non-nil buffer, so a nil result can only mean SQL NULL", "the buffer argument is allocated in Column.Write (make)", "the buffer handed to Encode is not a fresh non-nil slice of this call: an empty non-NULL value after a NULL (or a shared scratch buffer) becomes indistinguishable from NULL")
 			// the type map is the connection's
-			tm := enc.Call.Args[0]
+			tm := inWrite(enc.Call.Args[0])
 			okTM := false
 			if call, ok := tm.(*ssa.Call); ok && core.FuncIs(core.StaticCallee(call), pkWire, "TypeMap") {
 				if p, ok := call.Call.Args[0].(*ssa.Parameter); ok && isCtxType(p.Type()) {
@@ -77,7 +110,7 @@ func runC09(c *Ctx) {
 				leaves(enc.Call.Args[3], map[ssa.Value]bool{}, &srcLeaves)
 				nilPtrNormalised := false
 				for _, lv := range srcLeaves {
-					switch x := lv.(type) {
+					switch x := inWrite(lv).(type) {
 					case *ssa.Parameter:
 					case *ssa.Const:
 						if x.Value != nil {
@@ -101,7 +134,7 @@ func runC09(c *Ctx) {
 					isSrc = isSrc && okNil
 				}
 				R.Check(nilPtrNormalised && isSrc, "C09.R1", "Column.Write:nil-pointer-is-NULL", c.at(enc), "a nil pointer of any type is transmitted as NULL (the type map itself only recognises the untyped nil and would call methods on the nil pointer)", "the source is replaced by nil where reflect reports a nil pointer, before Encode", "the source value reaches Encode unchanged: a typed nil pointer to a nullable type (e.g. (*pgtype.Text)(nil)) makes the codec call a method on the nil pointer - a panic instead of a NULL field")
-				fmtP, isFmt := core.StripConv(enc.Call.Args[2]).(*ssa.Parameter)
+				fmtP, isFmt := core.StripConv(inWrite(core.StripConv(enc.Call.Args[2]))).(*ssa.Parameter)
 				_, oidPath := pathOf(core.StripConv(enc.Call.Args[1]))
 				okArgs = isSrc && isFmt && core.IsNamed(fmtP.Type(), pkWire, "FormatCode") && oidPath == ".Oid"
 			}
@@ -111,7 +144,7 @@ func runC09(c *Ctx) {
 			okLen, okNull := false, false
 			extra := ""
 			var lastLen ssa.CallInstruction
-			for _, ci := range core.Calls(cw) {
+			for _, ci := range core.Calls(appFn) {
 				switch writerMethod(ci) {
 				case "AddInt32":
 					n++
